@@ -38,7 +38,11 @@ const (
 	numRefClasses
 )
 
-func (c RefClass) WellFormed() bool { return c <= DynInside }
+// WellFormed: the documented semantics determine the referenced value. Besides
+// the references that lie inside the log this holds for a static data word that
+// straddles or lies beyond the end of the data: GetValue's contract (its doc
+// comment in eventtrigger.go) is that the missing bytes read as zeros.
+func (c RefClass) WellFormed() bool { return c <= DynInside || c == StaticPartial || c == StaticBeyond }
 
 var refClassNames = [...]string{
 	"topic present", "static word inside", "dynamic slice inside",
@@ -84,15 +88,25 @@ func Resolve(r Ref, topics [][]byte, data []byte) Resolution {
 		}
 		return Resolution{Class: TopicAbsent}
 	}
-	start := (r.Offset - 4) * 32 // Offset <= 2^32 in every enumerated reference: no overflow
+	if r.Offset-4 > n {
+		// the referenced word starts beyond the data whatever the arithmetic width
+		// (offsets near multiples of 2^59 must not wrap around to a word inside)
+		if r.Dynamic {
+			return Resolution{Class: DynHeadBeyond}
+		}
+		return Resolution{StaticBeyond, make([]byte, 32)}
+	}
+	start := (r.Offset - 4) * 32 // Offset-4 <= len(data): no overflow
 	if !r.Dynamic {
 		switch {
 		case start+32 <= n:
 			return Resolution{StaticInside, data[start : start+32]}
 		case start < n:
-			return Resolution{Class: StaticPartial}
+			v := make([]byte, 32)
+			copy(v, data[start:])
+			return Resolution{StaticPartial, v}
 		}
-		return Resolution{Class: StaticBeyond}
+		return Resolution{StaticBeyond, make([]byte, 32)}
 	}
 	switch {
 	case start >= n:
